@@ -64,13 +64,20 @@ def run(ctx):
     ctx.floor("C04.1", 5)
 
     # ---- C04.2 monotone store ---------------------------------------------------------
+    n_internal_derived = [0]
     for f, n, kind in attr_stores(prog, "samples", [c]):
         st = _stmt_of(f.node, n)
         if kind == "assign":
             ok = f.name == "__init__" or match_stmt("self.samples, self.log_q = self.sort_samples(samples, log_q)", st) is not None or match_stmt("self.samples = insert(self.samples, $i, samples)", st) is not None
             ctx.ob("R-WRITERS", "C04.2", f, "the store is only ever (re)assigned from a sort of its input or an insertion of new rows (never shrunk, masked or sliced)", ok, f"`{src(st)[:80]}`", node=n)
         else:
-            ctx.ob("R-WRITERS", "C04.2", f, "no element of the store is overwritten inside OrderedSamples", False, f"`{src(st)[:80]}`", node=n)
+            # the derived fields logQ / logW are recomputed for every stored sample at each level: whole-column stores of
+            # those two fields are the one element-level write the store may do itself (what they hold is C03.2's business)
+            tg_ = n if isinstance(n, ast.Subscript) else None
+            derived_ = tg_ is not None and isinstance(tg_.slice, ast.Constant) and tg_.slice.value in ("logQ", "logW") and src(tg_.value) == "self.samples"
+            if derived_:
+                n_internal_derived[0] += 1
+            ctx.ob("R-WRITERS", "C04.2", f, "no element of the store is overwritten inside OrderedSamples", derived_, f"`{src(st)[:80]}`", node=n)
     for f in fns:
         for n in walk_no_nested(f.node):
             if isinstance(n, ast.Call) and call_name(n) in ("np.delete", "numpy.delete") and n.args:
@@ -94,8 +101,8 @@ def run(ctx):
                         ctx.ob("R-WRITERS", "C04.2", f, "code outside the store only rewrites the derived fields logQ / logW of stored samples", fld in ("logQ", "logW") and f.qual == prog.fn(tables.INS + ".add_and_update_points").qual, f"`{src(st)[:80]}`", node=st)
                     if isinstance(t, ast.Attribute) and t.attr in ("samples",) and src(t.value) in ("self.training_samples", "self.iid_samples"):
                         ctx.ob("R-WRITERS", "C04.2", f, "code outside the store never replaces its samples array", False, f"`{src(st)[:80]}`", node=st)
-    ctx.require(ext >= 4, "external logQ/logW stores not found")
-    ctx.floor("C04.2", 7)  # (the np.delete instance is optional: slicing the index array is the same operation)
+    ctx.require(ext + n_internal_derived[0] >= 2, "logQ/logW stores of the sample stores not found (neither in add_and_update_points nor inside OrderedSamples)")
+    ctx.floor("C04.2", 5)  # (the np.delete instance and the place of the derived-field stores are optional: slicing the index array is the same operation)
 
     # ---- C04.3 co-update of the index sets ------------------------------------------------
     ns_st = [aa.cfg.id_of(n) for n, b in find_stmt("self.nested_samples_indices = $v", ad.node)]
